@@ -30,6 +30,9 @@ struct Engine {
         VState t = d; // Teak-mode stepping with a modulo on the write pointer
         t.cmd = 0, t.m[1] = 1, t.modi = 7, t.stepi = 2;
         bases.push_back(t);
+        VState u = d; // the same program in another 64K page (loop addresses carry page bits)
+        u.pc = 0x21000;
+        bases.push_back(u);
     }
 
     struct Out {
@@ -64,6 +67,7 @@ struct Engine {
         if (flat.size() <= 4096)
             for (u16 w : flat)
                 rp += Fmt(" %u", w);
+        rp += " | state " + SerState(bases[base]); // the start state (a base, possibly with the count register prepared)
         res.AddViolation("c09:" + key, text + Fmt(" | loop program [%s] (%d cycles) vs unrolled [%s] (%d cycles), base state %d", Words(loop).c_str(), lc, Words(flat).c_str(), fc, base), rp);
     }
 
@@ -107,6 +111,15 @@ struct Engine {
         return b;
     }
 
+    static bool CountRegister(Reg r) {
+        switch (r) {
+        case R_r0: case R_r1: case R_r2: case R_r3: case R_r4: case R_r5: case R_r7: case R_y0: case R_sv: case R_ext0: case R_ext1: case R_ext2: case R_ext3:
+        case R_a0l: case R_a1l: case R_b0l: case R_b1l: case R_a0h: case R_a1h: case R_b0h: case R_b1h: case R_cfgi: case R_cfgj:
+            return true;
+        default:
+            return false;
+        }
+    }
     // ---------------- (A) single-instruction repeat ----------------
     void RepChecks(int base, bool thorough) {
         std::vector<u32> counts = {0, 1, 2, 3, 4, 5, 6, 7, 8, 255};
@@ -139,6 +152,24 @@ struct Engine {
                     bases[base] = keep;
                 }
             }
+        // every Register operand as the count source, accumulators outside the 32-bit range
+        for (int ri = 0; ri < 32; ++ri) {
+            if (!CountRegister(kRegister[ri]))
+                continue;
+            for (u32 n : {0u, 1u, 3u}) {
+                VState s = bases[base];
+                s.a[0] = Sx40(0x1200000000ull), s.a[1] = Sx40(0x8000000000ull), s.b[0] = Sx40(0x7F00000000ull), s.b[1] = Sx40(0xFE00000000ull);
+                c03::WriteReg16(s, kRegister[ri], (u16)n);
+                u16 body = (kRegister[ri] == R_a0l || kRegister[ri] == R_a0h) ? 0x77D0 : 0x67D0;
+                std::vector<u16> loop = {(u16)(0x0D00 | ri), body, 0x0000};
+                std::vector<u16> flat(n + 1, body);
+                flat.push_back(0x0000);
+                VState keep = bases[base];
+                bases[base] = s;
+                Compare(Fmt("rep-reg:%s", kRegNames[kRegister[ri]]), loop, 1 + (int)n + 1, flat, (int)n + 1, base);
+                bases[base] = keep;
+            }
+        }
         // the counter the program can see: mov repc,[arrn1+ars0] stores repc at [r4]+ on every execution
         for (u32 n : {0u, 1u, 2u, 5u, 8u}) {
             std::vector<u16> loop = {(u16)(0x0C00 | n), 0xD7D2, 0x0000};
@@ -177,6 +208,7 @@ struct Engine {
         std::vector<Node> inner; // 0 or 1 nested block
         std::vector<u16> post;   // at least one word if inner is non-empty (each level ends at its own address)
         bool by_register = false;
+        int reg_index = 3; // Register operand index of the count register (3 = r3)
     };
     // instruction lengths of the body words we use
     static int Len(u16 op) {
@@ -194,7 +226,7 @@ struct Engine {
     // emit the loop form at absolute address `base_pc + out.size()`
     static void EmitLoop(const Node& n, u32 base_pc, std::vector<u16>& out, long& cycles) {
         size_t at = out.size();
-        out.push_back(n.by_register ? (u16)(0x5D00 | 3) : (u16)(0x5C00 | n.count)); // bkrep r3 / bkrep #count
+        out.push_back(n.by_register ? (u16)(0x5D00 | n.reg_index) : (u16)(0x5C00 | n.count)); // bkrep reg / bkrep #count
         out.push_back(0); // end address, patched below
         ++cycles;
         long body_cycles = 0;
@@ -209,7 +241,7 @@ struct Engine {
         u32 end = base_pc + (u32)out.size() - 1; // address of the last word of the block
         out[at + 1] = (u16)end;
         if (n.by_register)
-            out[at] = (u16)(0x5D00 | 3 | (((end >> 16) & 3) << 5));
+            out[at] = (u16)(0x5D00 | n.reg_index | (((end >> 16) & 3) << 5));
         // the nested loops' own cycle counts were accumulated once; the whole body runs count+1 times
         cycles += body_cycles * (n.count + 1);
     }
@@ -246,8 +278,12 @@ struct Engine {
         EmitFlat(n, flat, fc);
         flat.push_back(0x0000);
         VState keep = bases[base];
-        if (n.by_register)
-            bases[base].r[3] = (u16)n.count;
+        if (n.by_register) {
+            // accumulators outside the 32-bit range: a count taken from an accumulator half is the raw half, never a saturated value
+            bases[base].a[0] = Sx40(0x1200000000ull), bases[base].a[1] = Sx40(0x8000000000ull);
+            bases[base].b[0] = Sx40(0x7F00000000ull), bases[base].b[1] = Sx40(0xFE00000000ull);
+            c03::WriteReg16(bases[base], kRegister[n.reg_index], (u16)n.count);
+        }
         Compare(cls, loop, (int)LoopCycles(n), flat, (int)fc, base);
         bases[base] = keep;
     }
@@ -272,6 +308,15 @@ struct Engine {
             n.by_register = true;
             RunNode("bkrep:register-count", n, base);
         }
+        // ... from every Register operand, accumulators outside the 32-bit range
+        for (int ri = 0; ri < 32; ++ri)
+            if (CountRegister(kRegister[ri]) && kRegister[ri] != R_r1)
+                for (int count : {0, 2}) {
+                    bool a0 = kRegister[ri] == R_a0l || kRegister[ri] == R_a0h;
+                    Node n{count, {(u16)(a0 ? 0x77D0 : 0x67D0)}, {}, {(u16)(a0 ? 0xC7FF : 0xC601)}};
+                    n.by_register = true, n.reg_index = ri;
+                    RunNode(Fmt("bkrep:count-from-%s", kRegNames[kRegister[ri]]), n, base);
+                }
         // nesting depth 2..4, every count vector in {0,1,2}^depth, order-sensitive instructions at every level
         for (int depth = 2; depth <= 4; ++depth) {
             int combos = 1;
@@ -429,6 +474,14 @@ inline int RunReplay(const std::string& r, Result& res) {
     Engine e(res);
     if (base < 0 || base >= (int)e.bases.size())
         return 2;
+    size_t sp = r.find(" | state ");
+    if (sp != std::string::npos) {
+        VState st;
+        if (!ParseState(r.substr(sp + 9), st))
+            return 2;
+        if (!(fc == 0 || nf == 0))
+            e.bases[base] = st;
+    }
     if (fc == 0 || nf == 0) {
         // counter / frame / register-count checks: re-run the whole family for that base
         e.RepChecks(base, false);
@@ -450,7 +503,7 @@ inline int RunReplay(const std::string& r, Result& res) {
 inline void Run(const Args& args, Result& res) {
     res.property = "C09";
     bool th = args.thorough();
-    RunPool(3,
+    RunPool(4,
             [&](int idx, int, WorkerBlock& blk, Result& local) {
                 QuietStdout quiet;
                 Engine e(local);
@@ -465,8 +518,9 @@ inline void Run(const Args& args, Result& res) {
             },
             res);
     res.rule = "every loop program of the generated family is executed on the real interpreter and compared with its unrolled straight-line "
-               "form executed on the same interpreter from the same state (3 base states): rep with counts 0..8,255 (immediate), 0,1,3,256"
-               "(,65535) (register, r6) x 12 one-word bodies; bkrep with blocks of 1-3 instructions (+ a two-word last instruction) x counts 0..3, "
+               "form executed on the same interpreter from the same state (4 base states incl. one in program page 2): rep with counts 0..8,255 (immediate), 0,1,3,256"
+               "(,65535) (register, r6) x 12 one-word bodies, the count taken from every Register operand (accumulator halves of accumulators outside "
+               "the 32-bit range included); bkrep with blocks of 1-3 instructions (+ a two-word last instruction) x counts 0..3, "
                "register count 255; nesting depth 2-4 with every count vector in {0,1,2}^depth and order-sensitive bodies; break; the "
                "program-visible counters (mov repc / mov lc inside the loop); bkrepsto;bkreprst at depth 0-4 through [sp] and [arrn]. "
                "All register-file fields except the loop-control registers and the multiset of data-memory writes must be equal; loop state "
